@@ -211,7 +211,7 @@ Fixpoint next_scan (fuel : nat) (z : zone) (l : list transition) (k : nat) : res
                          | O => OK (z_default z)
                          | S k' => match nth_error l k' with Some p => OK (tr_type p) | None => Err OOB end
                          end) ;;
-          do e <- equiv_transitions (z_types z) prev_ti (tr_type tr) ;;
+          do e <- equiv_transitions (z_abbrs z) (z_types z) prev_ti (tr_type tr) ;;
           if e then next_scan f z l (S k) else OK (Some tr)
       end
   end.
@@ -239,7 +239,7 @@ Fixpoint prev_scan (z : zone) (l : list transition) (k : nat) : res nat :=
                      | O => OK (z_default z)
                      | S k'' => match nth_error l k'' with Some p => OK (tr_type p) | None => Err OOB end
                      end) ;;
-      do e <- equiv_transitions (z_types z) prev_ti (tr_type cur) ;;
+      do e <- equiv_transitions (z_abbrs z) (z_types z) prev_ti (tr_type cur) ;;
       if e then prev_scan z l k' else OK k
   end.
 
